@@ -51,10 +51,13 @@ package termincommittee
 
 // a vote is canonical when its signed header is byte-identical to its field-by-field re-encoding (what a NEW_VIEW nests)
 //@ pred CanonVC(vcm *interfaces.ViewChangeMessage) = content(vcm.content.SignedHeader().Raw()) == ReencVC(vcm.content.SignedHeader())
+//@ pred NestedRefsCanon(c *protocol.ViewChangeMessageContent) = HasProof(c) ==> Canonical(c.SignedHeader().PreparedProof().PreprepareBlockRef()) && Canonical(c.SignedHeader().PreparedProof().PrepareBlockRef())
 //@ func isCanonicalViewChange
 //@   props C11 C08 C20
 //@   requires vcm != nil && vcm.content != nil
 //@   ensures [iff-the-header-bytes-are-their-own-reencoding] result == CanonVC(vcm)
+// A-MB-RT (assumed at call sites): the canonical encoding of a header contains the canonical encodings of its nested parts
+//@   assume [A-MB-RT.the-block-references-nested-in-a-canonical-vote-are-canonical] result ==> NestedRefsCanon(vcm.content)
 
 //@ pred TicOK(tic *TermInCommittee) = tic.State != nil && tic.messageFactory != nil && len(tic.committeeMembers) >= 4 && tic.storage != nil && tic.keyManager != nil && tic.blockUtils != nil && tic.electionTrigger != nil && tic.communication != nil
 //@   | && SumMW(tic.committeeMembers, len(tic.committeeMembers)) < 2^64
@@ -633,7 +636,7 @@ package termincommittee
 //@   | && (vcm.content.SignedHeader().PreparedProof() != nil && len(vcm.content.SignedHeader().PreparedProof().Raw()) > 0 ==>
 //@   |      vcm.block != nil && vcm.block.Height() == vcm.content.SignedHeader().BlockHeight() && Commits(tic.blockUtils, vcm.content.SignedHeader().BlockHeight(), vcm.block, vcm.content.SignedHeader().PreparedProof().PreprepareBlockRef().BlockHash()))
 //@   | && (vcm.block != nil ==> vcm.content.SignedHeader().PreparedProof() != nil && len(vcm.content.SignedHeader().PreparedProof().Raw()) > 0)
-//@   | && vcm.content.SignedHeader().MessageType() == protocol.LEAN_HELIX_VIEW_CHANGE && CanonVC(vcm)
+//@   | && vcm.content.SignedHeader().MessageType() == protocol.LEAN_HELIX_VIEW_CHANGE && CanonVC(vcm) && NestedRefsCanon(vcm.content)
 //@   | && (HasProof(vcm.content) ==> ProofAcceptable(tic, vcm.content.SignedHeader().PreparedProof(), vcm.content.SignedHeader().BlockHeight(), vcm.content.SignedHeader().View()))
 
 //@ iface interfaces.Storage.StoreViewChange
@@ -649,6 +652,7 @@ package termincommittee
 //@   requires [O8.4.block-comes-with-its-proof] vcm.content.Sender().MemberId() == caller.myMemberId || (vcm.block != nil ==> vcm.content.SignedHeader().PreparedProof() != nil && len(vcm.content.SignedHeader().PreparedProof().Raw()) > 0)
 // a counted vote is nested in this node's NEW_VIEW by re-encoding its fields: only a canonical header keeps its signature valid there (C11, defect F14)
 //@   requires [O11.3.a-counted-vote-is-canonical] CanonVC(vcm)
+//@   requires [O11.3.the-block-references-nested-in-a-counted-vote-are-canonical] NestedRefsCanon(vcm.content)
 //@   requires [O11.3.a-counted-vote-carries-a-good-proof-or-none] HasProof(vcm.content) ==> ProofAcceptable(caller, vcm.content.SignedHeader().PreparedProof(), vcm.content.SignedHeader().BlockHeight(), vcm.content.SignedHeader().View())
 //@   modifies ghost:vcver, ghost:countedVC
 //@   ensures vcver == old(vcver) + 1
